@@ -853,6 +853,9 @@ def rule_regexes(ctx):
                   expected="every top-level alternative ends with \\Z", found=kinds)
     run.floor(R, 6)
     run.extra["regex_match_sites"] = n_sites
+    from .regexlang import rule_regex_languages
+    rule_regex_languages(ctx, "C02.regex-language", ["sound"])
+    run.floor("C02.regex-language", 5)
 
     # --- hash regex table ---------------------------------------------------
     R = "C02.hash-regex"
